@@ -107,6 +107,9 @@ def gen_doc(rng, ntok):
 COLOURS = ["red", "blue", "lime", "none", "currentColor", "yellow"]
 WIDTHS = [R(0), R(1, 2), R(2), R(3)]
 OPACS = [R(0), R(1, 4), R(1, 2), R(1)]
+PAINT_SHAPES = ("rect", "circle", "ellipse", "line", "polyline", "polygon")
+# type selectors: some tag names are substrings of others (g / polygon / svg, line / polyline) - a type selector names one tag
+TYPE_SELECTORS = ["rect", "circle", "g", "g", "line", "line", "polygon", "polyline", "ellipse"]
 
 
 def decls(rng, shape, n, own=True):
@@ -152,14 +155,21 @@ def gen_paint_doc(rng):
         ident = next(ids) if rng.random() < 0.7 else ""
         if r < 0.45 and depth < 4:
             paint = [decls(rng, False, rng.choice([0, 1, 2, 3])), classes, decls(rng, False, rng.choice([0, 0, 1, 2]))]
-            doc.append(["g", ident, rng.choice([0, 0, 2, 5, 7]), False, [], paint])
+            doc.append(["g", ident, rng.choice([0, 0, 2, 4, 5, 6, 7]), False, [], paint])
             depth += 1
         else:
             paint = [decls(rng, True, rng.choice([0, 1, 2, 3])), classes, decls(rng, True, rng.choice([0, 0, 1, 2]))]
-            if rng.random() < 0.5:
-                doc.append(["rect", ident, rng.choice([0, 0, 2]), False, [A(1), A(2), A(30), A(40), NOL, NOL], paint])
+            sk = rng.random()
+            if sk < 0.35:
+                doc.append(["rect", ident, rng.choice([0, 0, 2, 4]), False, [A(1), A(2), A(30), A(40), NOL, NOL], paint])
+            elif sk < 0.65:
+                doc.append(["circle", ident, rng.choice([0, 0, 7, 6]), False, [A(5), A(6), A(7)], paint])
+            elif sk < 0.75:
+                doc.append(["ellipse", ident, rng.choice([0, 0, 4]), False, [A(5), A(6), A(7), A(3)], paint])
+            elif sk < 0.85:
+                doc.append(["line", ident, rng.choice([0, 0, 2]), False, [A(1), A(2), A(30), A(40)], paint])
             else:
-                doc.append(["circle", ident, rng.choice([0, 0, 7]), False, [A(5), A(6), A(7)], paint])
+                doc.append([rng.choice(["polyline", "polygon"]), ident, rng.choice([0, 0, 6]), False, [[R(1), R(2)], [R(9), R(3)], [R(4), R(8)]], paint])
             nshape += 1
     if nshape == 0:
         doc.append(["rect", "z", 0, False, [A(1), A(2), A(30), A(40), NOL, NOL], [decls(rng, True, 2), ["k"], []]])
@@ -171,16 +181,16 @@ def gen_paint_doc(rng):
         if kind == "*":
             arg, body = "", [d for d in decls(rng, False, 1) if d[0] != "display"]
         elif kind == "type":
-            arg, body = rng.choice(["rect", "circle", "g"]), decls(rng, True, rng.choice([1, 2]), own=False)
+            arg, body = rng.choice(TYPE_SELECTORS), decls(rng, True, rng.choice([1, 2]), own=False)
         elif kind == "class":
             arg, body = rng.choice(["k", "m"]), decls(rng, True, rng.choice([1, 2]), own=False)
         elif kind == "typeclass":
-            arg, body = [rng.choice(["rect", "circle", "g"]), rng.choice(["k", "m"])], decls(rng, True, rng.choice([1, 2]), own=False)
+            arg, body = [rng.choice(TYPE_SELECTORS), rng.choice(["k", "m"])], decls(rng, True, rng.choice([1, 2]), own=False)
         else:
             if not used_ids:
                 continue
             arg = rng.choice(used_ids)
-            is_shape = any(t[1] == arg and t[0] in ("rect", "circle") for t in doc)
+            is_shape = any(t[1] == arg and t[0] in PAINT_SHAPES for t in doc)
             body = decls(rng, True, rng.choice([1, 2]), own=is_shape)
         if body:
             sheet.append([kind, arg, body])
